@@ -27,10 +27,11 @@
 (*   invalid requests     an error reply, the state unchanged, the         *)
 (*                        connection alive                                 *)
 (*                                                                         *)
-(* Streams are identified per bucket (EventStore); a read or subscription  *)
-(* through a key names the bucket and partition of that key.  Reads        *)
-(* through a key whose partition differs from the partition the stream     *)
-(* lives in (same bucket) are outside the generated domain.                *)
+(* Streams are identified per bucket for appends (EventStore: one key per   *)
+(* stream and bucket, versions counted per bucket).  A read or             *)
+(* subscription through a key is addressed to the partition of that key: a *)
+(* stream that lives in another partition of the same bucket has no events *)
+(* there; a subscription matches on the key as well.                        *)
 (***************************************************************************)
 EXTENDS EventStore, Json
 CONSTANTS KeyPart,      \* Keys -> Parts : the partition a partition key hashes to
@@ -57,10 +58,11 @@ PScan(L, p, start, end, count) ==        \* end < 0: open
         must_more |-> Len(inr) > Len(ret),
         must_not_more |-> ~\E q \in 0..(Len(L[p]) - 1) : q >= next]
 
-\* the events of stream s in bucket b as <<ver, p, q>>
-SEv(L, b, s) == {<<L[e[1]][e[2]].ver, e[1], e[2] - 1>> : e \in StreamEvents(L, b, s)}
-SScan(L, b, s, start, end, count) ==
-    LET all == SEv(L, b, s)
+\* the events of stream s that a read addressed to partition p sees, as <<ver, p, q>>: the stream index is per bucket, but
+\* a stream lives in the partition of the key it is bound to; addressed to another partition of the bucket it has no events
+SEv(L, p, s) == {<<L[e[1]][e[2]].ver, e[1], e[2] - 1>> : e \in {x \in StreamEvents(L, Bucket(p), s) : x[1] = p}}
+SScan(L, p, s, start, end, count) ==
+    LET all == SEv(L, p, s)
         vs == AscSeq({t[1] : t \in {x \in all : x[1] >= start /\ (end < 0 \/ x[1] <= end)}})
         ret == SubSeq(vs, 1, MinOf(count, Len(vs)))
         next == IF ret = << >> THEN start ELSE ret[Len(ret)] + 1
@@ -68,6 +70,8 @@ SScan(L, b, s, start, end, count) ==
     IN [events |-> [i \in 1..Len(ret) |-> <<At(ret[i])[2], At(ret[i])[3]>>],
         must_more |-> Len(vs) > Len(ret),
         must_not_more |-> ~\E t \in all : t[1] >= next]
+SVer(L, p, s) == LET all == SEv(L, p, s) IN
+                 IF all = {} THEN 0 - 1 ELSE CHOOSE v \in {t[1] : t \in all} : \A t \in all : t[1] <= v
 
 \* the key may be used to subscribe to stream s: the stream is unbound in the key's bucket or bound to this very key
 \* (history is read by stream id, live events are matched by key and stream id)
@@ -143,10 +147,9 @@ EGet(c, t, i) ==
 Num(x, dflt) == IF x < 0 THEN dflt ELSE x
 EScan(c, s, usekey, k, start, end, count) ==
     LET key == IF usekey THEN k ELSE DefKey[s] IN
-    /\ ReadableBy(log, key, s)
     /\ UNCHANGED <<log, subs>>
     /\ Step(c, [cmd |-> "ESCAN", s |-> s, key |-> IF usekey THEN k ELSE "-", start |-> start, end |-> end, count |-> count,
-             res |-> SScan(log, Bucket(KeyPart[key]), s, Num(start, 0), Num(end, 0 - 1), Num(count, 100))])
+             res |-> SScan(log, KeyPart[key], s, Num(start, 0), Num(end, 0 - 1), Num(count, 100))])
 \* EPSCAN <p | key> <start> <end> [COUNT c]
 EPScan(c, bykey, k, p, start, end, count) ==
     LET pp == IF bykey THEN KeyPart[k] ELSE p IN
@@ -160,10 +163,9 @@ ScanBadRange(c, which, s, p, form) ==
 
 ESVer(c, s, usekey, k) ==
     LET key == IF usekey THEN k ELSE DefKey[s] IN
-    /\ ReadableBy(log, key, s)
     /\ UNCHANGED <<log, subs>>
     /\ Step(c, [cmd |-> "ESVER", s |-> s, key |-> IF usekey THEN k ELSE "-",
-             res |-> VerOut(CurVer(log, Bucket(KeyPart[key]), s))])
+             res |-> SVer(log, KeyPart[key], s)])
 EPSeq(c, bykey, k, p) ==
     /\ UNCHANGED <<log, subs>>
     /\ Step(c, [cmd |-> "EPSEQ", sel |-> IF bykey THEN k ELSE p,
@@ -185,8 +187,7 @@ ESub(c, streams, from, w) ==
         start(u) == IF from.k = "all" THEN from.v
                     ELSE IF mapped(u) THEN (CHOOSE e \in {from.m[j] : j \in 1..Len(from.m)} : e.s = u[2]).v
                     ELSE NextVer(log, u[1], u[2])
-    IN /\ \A i \in 1..Len(streams) : SubKeyOk(log, KeyOf(i), streams[i].s)
-       /\ subs' = Append(subs, [kind |-> "S", units |-> units, from |-> [u \in units |-> start(u)], win |-> WinOf(w), ack |-> 0,
+    IN /\ subs' = Append(subs, [kind |-> "S", units |-> units, from |-> [u \in units |-> start(u)], win |-> WinOf(w), ack |-> 0,
                                  conn |-> c, open |-> TRUE])
        /\ UNCHANGED log
        /\ Step(c, [cmd |-> "ESUB", streams |-> streams, from |-> from, win |-> w, res |-> [sub |-> Len(subs) + 1]])
